@@ -7,11 +7,13 @@ The fault engine enumerates fault operators over the bytes of the two real .nzd 
     Ins(p, b)         insert a byte before p      b = 0x80
     Del(p)            delete byte p
     Sub^k             k <= 4 simultaneous substitutions inside one 6-byte framing window (field id, length, first payload bytes)
-    MaxLen(j)         the Sub^4 that turns field j's length into a 5-byte varint (0xFF x 4): declared lengths up to 32 GiB
+    MaxLen(j)         the two Sub^4 that turn field j's length into ff ff ff ff <next byte> (up to 32 GiB) and ff ff ff 7f (2^28-1)
+    Sub(p, v)         role-aware values inside zone payloads: every month 0..13, every flag byte 0..127, every day-of-month
+                      code 0..63 of the tail rules; orig+-1, orig+-2, 0x7F, 0x80, 1..12 ("E") and all 256 values on chosen zones
 
 and runs, for every faulted stream, the REAL loader:  TzdbDateTimeZoneSource.from_stream, then version_id, get_ids(),
 DateTimeZoneCache(source), and source.for_id(id) / cache[id] for every id whose decoding can read a changed byte.
-Each call runs under a watchdog (signal.setitimer on the process CPU clock, 5 s) with RLIMIT_AS = baseline + 1 GiB.
+Each call runs under a watchdog (signal.setitimer on the process CPU clock, 5 s) with RLIMIT_AS = the worker's footprint + 192 MiB.
 
 Oracle: a call returns, or raises InvalidPyodaDataError (cache construction / cache[id] may also raise the documented
 InvalidDateTimeZoneSourceError).  Anything else - another exception type, the watchdog, MemoryError - is a violation
@@ -28,6 +30,7 @@ is checked, not assumed: a stated subset of payload faults is run through both a
 from __future__ import annotations
 
 import bisect
+import gc
 import io
 import itertools
 import math
@@ -44,7 +47,7 @@ from vf.models import nzdframe as F
 
 LEVEL = "fault_enumeration"
 TIME_LIMIT_S = 5.0
-MEM_EXTRA = 1 << 30
+MEM_EXTRA = 192 << 20          # a load needs a few MB; a reader that pre-allocates a declared length of 2^28 bytes must be seen
 
 _BIND_ERROR = None
 _SEAM_ERROR = None
@@ -81,9 +84,9 @@ def _on_alarm(_sig, _frm):
 _LIMITS_SET = False
 
 
-def init_limits():
+def init_limits(force=False):
     global _LIMITS_SET
-    if _LIMITS_SET:
+    if _LIMITS_SET and not force:
         return
     signal.signal(signal.SIGPROF, _on_alarm)
     vm = 0
@@ -171,6 +174,13 @@ class FileCtx:
                 self.first_tailed = self.zone_id[f.index]
             if kind == "fixed" and self.first_fixed is None:
                 self.first_fixed = self.zone_id[f.index]
+        self.roles = {}      # zone field index -> {payload offset: role}
+        for f in self.fields:
+            if f.fid == 1:
+                try:
+                    self.roles[f.index] = M.zone_field_roles(F.payload(self.data, f), self.pool)
+                except M.Bad:
+                    self.roles[f.index] = {}
         self.canaries = [c for c in (self.first_tailed, self.first_fixed) if c]
         if self.idmap:
             self.canaries.append(sorted(self.idmap)[0])
@@ -294,6 +304,31 @@ def sub_values(orig):
     return out
 
 
+def alphabet(name, orig):
+    """extra substitution values (beyond sub_values) for a byte with a known role"""
+    base = sub_values(orig)
+    if name == "E":
+        extra = [(orig + 1) & 255, (orig - 1) & 255, (orig + 2) & 255, (orig - 2) & 255, 0x7F, 0x80] + list(range(1, 13))
+    elif name == "all":
+        extra = range(256)
+    elif name == "month":
+        extra = range(0, 14)
+    elif name == "flags":
+        extra = range(0, 128)
+    elif name == "dom":
+        extra = range(0, 64)
+    else:
+        raise AssertionError(name)
+    out = []
+    for b in extra:
+        if b != orig and b not in base and b not in out:
+            out.append(b)
+    return out
+
+
+ROLE_ALPHABET = {"tail-month": "month", "tail-flags": "flags", "tail-dom": "dom"}
+
+
 def apply_fault(data, fault):
     k = fault[0]
     if k == "T":
@@ -394,6 +429,11 @@ class Exec:
         self.calls += 1
         st, val = guarded(fn)
         if st in ("timeout", "memory") and retry is not None:
+            if st == "memory":
+                # the worker's own footprint may have drifted towards the limit: collect, re-measure, re-arm
+                val = None
+                gc.collect()
+                init_limits(force=True)
             st, val = guarded(retry())       # reported only when it happens twice
         if st == "ok":
             self.acc.outcome("%s: ok" % name)
@@ -422,7 +462,7 @@ class Exec:
             what = "%s did not return within %.0f s of CPU time (twice)" % (name, TIME_LIMIT_S)
         else:
             label = "MemoryError/%s" % exc_site(val)
-            what = "%s exhausted memory (more than 1 GiB above the baseline)" % name
+            what = "%s exhausted memory (more than %d MiB above the worker's footprint, twice)" % (name, MEM_EXTRA >> 20)
         self.acc.outcome("%s: FOREIGN %s" % (name, label))
         self.vector.append((name, zid, label))
         key = "C20/%s/%s" % (name, label)
@@ -658,6 +698,11 @@ def _shard_body(acc, fc, kind, item):
         for p in _positions(item[2]):
             for b in sub_values(fc.data[p]):
                 do_sub(acc, fc, p, b, use_seam)
+    elif kind == "subv":
+        # role-aware / extended substitution values for payload bytes: item[2] = ("l", [(position, alphabet name), ...])
+        for p, name in item[2][1]:
+            for b in alphabet(name, fc.data[p]):
+                do_sub(acc, fc, p, b, item[3])
     elif kind == "ins":
         for p in _positions(item[2]):
             ex = run_public(acc, fc, ("I", p, item[3]), None)
@@ -711,6 +756,10 @@ def _shard_body(acc, fc, kind, item):
             f = fc.fields[j]
             ps = [p for p in range(f.len_start, f.len_start + 4) if p < len(fc.data)]
             ex = run_public(acc, fc, ("S", tuple((p, 0xFF) for p in ps)), None)
+            account(acc, ex)
+            # and the largest 4-byte varint (2^28-1: huge, but a valid int32 whatever follows)
+            vals = [0xFF] * (len(ps) - 1) + [0x7F]
+            ex = run_public(acc, fc, ("S", tuple(zip(ps, vals))), None)
             account(acc, ex)
     else:
         raise AssertionError(kind)
@@ -773,6 +822,19 @@ def plan(tier, seed, seam_ok, notes):
             notes.setdefault("zone_fields_substituted_completely", {})[fc.name] = [fc.zone_id[f.index] for f in whole]
             if seam_ok:
                 items += listed("sub", fi, pp, 250, True)
+                xv = []
+                for f in whole:                       # chosen zones: extended values everywhere, all 256 on the tail bytes
+                    for off, role in sorted(fc.roles[f.index].items()):
+                        xv.append((f.payload_start + off, "all" if role.startswith("tail-") else "E"))
+                whole_idx = {f.index for f in whole}
+                for f in zf:                          # every other zone with a tail: every month value of both rules
+                    if f.index in whole_idx:
+                        continue
+                    for off, role in sorted(fc.roles[f.index].items()):
+                        if role == "tail-month":
+                            xv.append((f.payload_start + off, "month"))
+                for i in range(0, len(xv), 40):
+                    items.append(("subv", fi, ("l", xv[i:i + 40]), True))
             else:
                 items += listed("sub", fi, sorted(pp)[::6], 40, False)
             # Ins / Del
@@ -828,6 +890,25 @@ def plan(tier, seed, seam_ok, notes):
                 for f in zf:
                     zp.extend(range(f.payload_start, min(f.end, f.payload_start + 8)))
                 items += listed("sub", fi, zp, 40, False)
+            else:
+                plain = [f for f in by_size if not _is_tailed(fc, f) and (f.end - f.payload_start) > 8]
+                tl = [f for f in by_size if _is_tailed(fc, f)]
+                step = max(1, len(tl) // 12)
+                whole = by_size[:3] + plain[:3] + tl[:6] + tl[6::step][:12]
+                whole_idx = {f.index for f in whole}
+                notes.setdefault("zone_fields_substituted_with_extended_values", {})[fc.name] = [fc.zone_id[f.index] for f in whole]
+                xv = []
+                for f in whole:
+                    for off, role in sorted(fc.roles[f.index].items()):
+                        xv.append((f.payload_start + off, "all" if role.startswith("tail-") else "E"))
+                for f in zf:
+                    if f.index in whole_idx:
+                        continue
+                    for off, role in sorted(fc.roles[f.index].items()):
+                        if role.startswith("tail-"):
+                            xv.append((f.payload_start + off, ROLE_ALPHABET.get(role, "E")))
+                for i in range(0, len(xv), 30):
+                    items.append(("subv", fi, ("l", xv[i:i + 30]), True))
             # Ins / Del at every non-zone position (framing bytes + every byte of the non-zone fields)
             idp = set(framing) | set(range(L - 32, L + 1))
             for a, b in nonzone:
@@ -883,7 +964,7 @@ def run(ctx):
         "that field (string pool: every handler) - checked on the seam-equivalence subset, which runs both seams",
         "string-pool strings are opaque to zone decoding: at most 6 (quick) / 24 (thorough) dependent zones are fetched per pool or id-map fault (cap reported)",
         "prompt = every call returns within %.0f s of CPU time (nominal load 25 ms; CPU time so that a busy machine cannot fake a hang; "
-        "a time-out is reported only if it repeats) and within 1 GiB above the worker's baseline" % TIME_LIMIT_S,
+        "a time-out is reported only if it repeats) and within %d MiB above the worker's footprint" % (TIME_LIMIT_S, MEM_EXTRA >> 20),
     ]
     if _BIND_ERROR:
         ctx.degrade("loader not reachable (%s): nothing checked" % _BIND_ERROR)
